@@ -137,22 +137,26 @@ def ob_siso(profile):
     return verify(body, check_side=False, timeout_ms=60000)
 
 
-@obligation("mimo/both_directions", params=[{"switched": s, "profile": p} for s in (False, True) for p in ("sparse", "late")], timeout=200,
-            desc="TdlChannel with Nr=1, Nt=2 antennas (unequal on purpose): forward out[rx] = sum_tx conv(x[tx], g[:,rx,tx]); switched "
-                 "direction out[tx] = sum_rx conv(x[rx], g[:,rx,tx]); row count Nr resp. Nt; length input + memory")
-def ob_mimo(switched, profile):
+@obligation("mimo/both_directions", params=[{"switched": s, "profile": p, "ants": a, "form": f}
+                                            for s in (False, True) for p in ("sparse", "late") for a in ("1x2", "2x1")
+                                            for f in ("2d", "1d") if (f == "2d" and a == "1x2") or
+                                            (f == "1d" and p == "sparse" and (a == "1x2") == s)], timeout=200,
+            desc="TdlChannel with Nr x Nt = 1x2 / 2x1 antennas (unequal on purpose): forward out[rx] = sum_tx conv(x[tx], g[:,rx,tx]); "
+                 "switched direction out[tx] = sum_rx conv(x[rx], g[:,rx,tx]); row count Nr resp. Nt; length input + memory; a single "
+                 "input stream may be given as a 1-D array (form=1d) with the same result")
+def ob_mimo(switched, profile, ants="1x2", form="2d"):
     def body(c, it):
         from pyphysim.channels import fading
         prof = _profile(PROFILES[profile])
         gen = SymFading(c)
         ch = it.call(fading.TdlChannel, [gen, prof])
-        Nr, Nt = 1, 2
+        Nr, Nt = (1, 2) if ants == "1x2" else (2, 1)
         it.call(it.getattr(ch, "set_num_antennas"), [Nr, Nt])
         it.setattr(ch, "switched_direction", switched)
         N = 3
         nin, nout = (Nr, Nt) if switched else (Nt, Nr)
         x = _sig(c, "x", nin, N)
-        out = it.call(it.getattr(ch, "corrupt_data"), [x])
+        out = it.call(it.getattr(ch, "corrupt_data"), [x[0] if form == "1d" else x])
         ir = it.call(it.getattr(ch, "get_last_impulse_response"), [])
         taps = it.getattr(ir, "tap_values_sparse")
         delays = PROFILES[profile]
@@ -363,14 +367,14 @@ def ob_native():
     def mkprofile(rr):
         k = int(rr.randint(1, 6))
         delays = np.sort(rr.choice(np.arange(0, 12), size=k, replace=False)).astype(float) * 1e-6
-        if rr.rand() < 0.3 and k > 1:
+        if (not (rr.rand() >= 0.3)) and k > 1:
             delays[1] = delays[0] + 0.2e-6
-        if rr.rand() < 0.4:
+        if (not (rr.rand() >= 0.4)):
             delays = delays + 3e-6
         return fading.TdlChannelProfile(rr.uniform(-25, 0, k), delays)
 
     def mkgen(rr, seed):
-        if rr.rand() < 0.5:
+        if (not (rr.rand() >= 0.5)):
             return fg.JakesSampleGenerator(float(rr.uniform(0, 50)), 1e-6, 8, None, np.random.RandomState(seed))
         return fg.RayleighSampleGenerator()
 
@@ -403,11 +407,11 @@ def ob_native():
                         for i_ in range(nin):
                             g = t[:, i_, o, :] if ch.switched_direction else t[:, o, i_, :]
                             ref[o] += _ref_conv(x[i_], g, d)
-                if out.shape != ref.shape or np.abs(out - ref).max() > 1e-10 * max(1, np.abs(ref).max()):
+                if out.shape != ref.shape or (not (np.abs(out - ref).max() <= 1e-10 * max(1, np.abs(ref).max()))):
                     return {"kind": kind, "switched": bool(getattr(ch, "switched_direction", False)), "Nr": nr, "Nt": nt, "delays": d.tolist(),
                             "max error": float(np.abs(out - ref).max()) if out.shape == ref.shape else "shape %s vs %s" % (out.shape, ref.shape)}
             p = ch.channel_profile
-            if abs(p.tap_powers_linear.sum() - 1) > 1e-9:
+            if (not (abs(p.tap_powers_linear.sum() - 1) <= 1e-9)):
                 return {"discretised powers do not sum to one": float(p.tap_powers_linear.sum())}
             return None
         if kind in ("su", "sufreq"):
@@ -437,7 +441,7 @@ def ob_native():
                 ref = np.concatenate([F[idx, b] * x[b * len(idx):(b + 1) * len(idx)] for b in range(nb)])
                 if ir.num_samples != nb:
                     return {"reported response samples": ir.num_samples, "blocks": nb}
-            if out.shape != ref.shape or np.abs(out - ref).max() > 1e-10 * max(1, np.abs(ref).max()):
+            if out.shape != ref.shape or (not (np.abs(out - ref).max() <= 1e-10 * max(1, np.abs(ref).max()))):
                 return {"kind": kind, "pathloss": pl, "max error": float(np.abs(out - ref).max()) if out.shape == ref.shape else "shape"}
             return None
         if kind in ("mu", "mufreq"):
@@ -453,7 +457,7 @@ def ob_native():
                     for tx in range(3):
                         ir = mu.get_last_impulse_response(rx, tx)
                         ref = ref + _ref_conv(x[tx], ir.tap_values_sparse, ir.tap_indexes_sparse)
-                    if np.abs(out[rx] - ref).max() > 1e-10 * max(1, np.abs(ref).max()):
+                    if (not (np.abs(out[rx] - ref).max() <= 1e-10 * max(1, np.abs(ref).max()))):
                         return {"mu receiver": rx, "max error": float(np.abs(out[rx] - ref).max())}
             else:
                 fft = 16
@@ -464,7 +468,7 @@ def ob_native():
                     for tx in range(3):
                         F = mu.get_last_impulse_response(rx, tx).get_freq_response(fft)
                         ref = ref + np.concatenate([F[:, b] * x[tx, b * fft:(b + 1) * fft] for b in range(2)])
-                    if np.abs(out[rx] - ref).max() > 1e-10 * max(1, np.abs(ref).max()):
+                    if (not (np.abs(out[rx] - ref).max() <= 1e-10 * max(1, np.abs(ref).max()))):
                         return {"mu freq receiver": rx, "pathloss": PL.tolist(), "max error": float(np.abs(out[rx] - ref).max())}
             return None
         # freq on the plain TdlChannel incl. MIMO
@@ -479,7 +483,7 @@ def ob_native():
             return {"valid selection rejected": repr(sel), "error": str(e)[:80]}
         F = ch.get_last_impulse_response().get_freq_response(fft)
         ref = np.concatenate([F[idx, b] * x[b * len(idx):(b + 1) * len(idx)] for b in range(2)])
-        if np.abs(out - ref).max() > 1e-10 * max(1, np.abs(ref).max()):
+        if (not (np.abs(out - ref).max() <= 1e-10 * max(1, np.abs(ref).max()))):
             return {"freq": repr(sel), "max error": float(np.abs(out - ref).max())}
         return None
     return bounded(gen(), check)
